@@ -4,6 +4,7 @@ from typing import Optional
 from typing import Tuple
 from typing import Union
 
+import decimal
 import locale
 import math
 import re
@@ -431,7 +432,8 @@ class FractionValue:
             return infinity / infinity
 
         def GetFractionalPart(value: float) -> float:
-            str_value = str(value)
+            # Positional notation is needed: str() uses an exponent for small values ('8e-05').
+            str_value = format(decimal.Decimal(str(value)), "f")
             pos = str_value.find(".")
             return float("0." + str_value[pos + 1 :])
 
